@@ -274,9 +274,16 @@ func insHistory(id string, rng *rand.Rand, lt *layoutTables, actions []string) M
 			after := sem(&card)
 			ev = append(ev, M{"ev": "clone", "what": "card", "orig": orig, "clone": pc, "orig_after": after})
 
-			dev := uhppote.Device{Name: "n", DeviceID: 5, Address: types.ControllerAddr{AddrPort: netip.MustParseAddrPort("1.2.3.4:5")}, Doors: []string{"a", "b", "c", "d"}, TimeZone: time.UTC, Protocol: "udp"}
+			// (every protocol string and a nil / foreign TimeZone: the clone is EQUAL to the original, field by field)
+			zones := []*time.Location{time.UTC, nil, time.Local, locs[rng.Intn(len(locs))]}
+			dev := uhppote.Device{Name: "n", DeviceID: 5, Address: types.ControllerAddr{AddrPort: netip.MustParseAddrPort("1.2.3.4:5")}, Doors: []string{"a", "b", "c", "d"},
+				TimeZone: zones[rng.Intn(len(zones))], Protocol: []string{"udp", "tcp", "any", "", "TCP"}[rng.Intn(5)]}
 			pd := func(x uhppote.Device) M {
-				return M{"name": x.Name, "id": int(x.DeviceID), "addr": x.Address.String(), "doors": fmt.Sprint(x.Doors), "proto": x.Protocol}
+				tz := "nil"
+				if x.TimeZone != nil {
+					tz = x.TimeZone.String()
+				}
+				return M{"name": x.Name, "id": int(x.DeviceID), "addr": x.Address.String(), "doors": fmt.Sprint(x.Doors), "proto": x.Protocol, "tz": tz}
 			}
 			o1 := pd(dev)
 			dc := dev.Clone()
